@@ -427,7 +427,7 @@ fn main() {
     let nan_words: Vec<Vec<u8>> = all_words_upto(fam.alpha.len(), run.pick(5, 6)).into_iter().filter(|w| w.contains(&0)).collect();
     total.merge(par_items(&nan_words, run.threads, |w, ctx| check_nan_kinds(w, &fam.alpha, ctx)));
     let meta = Meta {
-        rule: "history tree of every word over {null,-1,0,2}; at each word every operation (shift, vshift, vdiff, vpct_change with every lag in -len-3..=len+3 and i32::MIN/MAX and every fill; ffill/bfill/fill and their mask forms; vclip with every ordered and unordered pair of bounds incl. null; abs, vabs) on f64/f32/i32/Option<f64>/Option<i32>, consumed by plain safe iteration and compared element by element with the positional definition; length law; clip containment and idempotence; short words on every input back end; the same operations on long structured series (24 / 40 / 130 elements, null blocks and periodic nulls). Non-trivial = word with a non-null element. Also (DESIGN 5.15, 5.16): NaN kinds (maps-nan-kinds); infinities in every operation (maps-inf: a difference or ratio of two infinities is null).".into(),
+        rule: "history tree of every word over {null,-1,0,2}; at each word every operation (shift, vshift, vdiff, vpct_change with every lag in -len-3..=len+3 and i32::MIN/MAX and every fill; ffill/bfill/fill and their mask forms; vclip with every ordered and unordered pair of bounds incl. null; abs, vabs) on f64/f32/i32/Option<f64>/Option<i32>, consumed by plain safe iteration and compared element by element with the positional definition; length law; clip containment and idempotence; short words on every input back end; the same operations on long structured series (24 / 40 / 130 elements, null blocks and periodic nulls). Non-trivial = word with a non-null element. Also (DESIGN 5.15, 5.16): NaN kinds (maps-nan-kinds); infinities in every operation (maps-inf: a difference or ratio of two infinities is null). Round 9 (DESIGN 5.18): maps-durations - vclip on TimeDelta / Option<TimeDelta> words with plain and month-bearing elements and bounds, NaT bounds included, against the ordered-clip model.".into(),
         bounds: json!({"alphabet": json_word(&fam.alpha), "L": fam.max_len, "backend_L": fam.backend_len, "lags": "-len-3..=len+3, i32::MIN, i32::MAX", "fills": ["omitted", "null", 7]}),
         assumptions: vec!["vclip with lower > upper: only length and null preservation (DESIGN 5.6)".into(), "vdiff on numeric element types only (needs Sub), DESIGN 5.8".into()],
         exhaustive: true,
